@@ -17,13 +17,16 @@ def claim(pid, design, text, note="", engine="coq-models"):
 
 
 claim("C02", "DESIGN.md section 4 C02 + section 11",
-      "proof (partial): Coq theorems, for all lambda bodies, all backends and all datasets, that every rewrite rule the simplifier applies preserves "
-      "the query's value whenever the original evaluates (7 fusion rules with Python's short-circuit `and`, identity-Select/True-Where elision, "
-      "tuple/list projection, First push-through in the sound direction), under exactly the freshness side conditions the algorithm establishes; "
-      "plus weakening/shadowing/exchange of environments (eval_agree). NOT proved: the composition of the rules by the fuel-indexed traversal with its "
-      "substitution stack (simp_preserves) - that part rests on the exact model/code correspondence (modulo names of lambda parameters) and on the "
-      "CPython oracle over three binder-naming schemes and 6 datasets.",
-      "Reference semantics Base/Eval.v is first-order and eager; the oracle uses lazy LINQ sequences. Termination not proved (explicit fuel).")
+      "proof: Coq theorem simplifier_preserves_query_results (Proofs/SimplifySound.v: simp_sound by strong induction on the fuel, over the whole "
+      "traversal with its substitution stack, fresh-name counter, alpha-renaming, beta-reduction with Python argument binding, the seven fusion "
+      "rules with their re-visits, literal/dictionary projection): for every fuel, counter, backend and admissible query, if the simplifier model "
+      "returns a query then on every dataset whatever the original evaluates to the result evaluates to (lambdas refine pointwise), and the "
+      "result is again admissible; plus the rule-level theorems, alpha-renaming and environment lemmas. Partial in one respect, stated in the "
+      "theorem: queries mentioning First are outside it (the First push-through is not a refinement for the eager list semantics; rule theorems "
+      "state what holds) - those rest on the exact model/code correspondence (modulo names of lambda parameters) and the CPython oracle with lazy "
+      "sequences over three binder-naming schemes and 6 datasets.",
+      "Reference semantics Base/Eval.v is first-order and eager; hypotheses backend_ok/bok (fresh names and bound names are not backend function "
+      "names; dictionaries are records) are part of the statement. Termination not proved (explicit fuel; OutOfFuel excluded by the statement).")
 claim("C14", "DESIGN.md section 4 C14 + section 11",
       "proof (partial): Coq lemmas for every fuel/stack/counter that a constant in-range projection of a visited tuple/list/dict literal is replaced by "
       "the selected component and that a pending definition reaches every use of its name; package-freedom decided on model outputs (Examples). "
